@@ -12,7 +12,8 @@ open Goflow Goflow.Gen Goflow.Gen.History Goflow.Spec.Netflow
     a template with a numeric element of illegal width 9 as its last data set -/
 def failingDatagram (version dom : Nat) : G Bytes := do
   let good : List SField := [⟨8, 4, none⟩, ⟨12, 4, none⟩, ⟨1, 4, none⟩]
-  let bad : List SField := [⟨2, 9, none⟩]
+  -- the failing record first fills scalar, repeated and address columns, then hits the illegal width
+  let bad : List SField := [⟨58, 2, none⟩, ⟨56, 6, none⟩, ⟨70, 3, none⟩, ⟨47, 4, none⟩, ⟨32, 2, none⟩, ⟨18, 4, none⟩, ⟨138, 4, none⟩, ⟨2, 9, none⟩]
   let r1 ← listOf 3 (Netflow.genRecordVals good)
   let r2 ← listOf 1 (Netflow.genRecordVals bad)
   let m0 : Msg := ⟨version, 0, 1000, 1700000000, 7, dom, [.template [(400, good), (401, bad)] 0, .data 400 good r1 0, .data 401 bad r2 0]⟩
